@@ -14,6 +14,35 @@ import (
 	"github.com/jeroenrinzema/psql-wire/pkg/types"
 )
 
+// The library's hook variables are set once, before any goroutine of a run
+// exists; they dispatch to the kernel of the current run through a pointer
+// that is only touched from //go:norace functions.
+var curKernel *Kernel
+
+//go:norace
+func setCurKernel(k *Kernel) { curKernel = k }
+
+//go:norace
+func hookYield(point string) {
+	if k := curKernel; k != nil {
+		k.YieldHook(point)
+	}
+}
+
+//go:norace
+func hookLock(try func() bool, lock func(), point string) {
+	if k := curKernel; k != nil {
+		k.LockHook(try, lock, point)
+		return
+	}
+	lock()
+}
+
+func init() {
+	wire.VerifYield = hookYield
+	wire.VerifLock = hookLock
+}
+
 type discardHandler struct{}
 
 func (discardHandler) Enabled(context.Context, slog.Level) bool  { return false }
@@ -296,6 +325,12 @@ type Result struct {
 	BuildErr      string
 }
 
+//go:norace
+func (rt *Runtime) setFrozen() { rt.frozen = true }
+
+//go:norace
+func (rt *Runtime) isFrozen() bool { return rt.frozen }
+
 func newRuntime(c *Case, scheduled bool) *Runtime {
 	rt := &Runtime{C: c, K: NewKernel(scheduled), never: make(chan struct{})}
 	rt.acceptTask = rt.K.AddTask("accept")
@@ -332,9 +367,8 @@ func (rt *Runtime) finish(res *Result) {
 // teardown stops the server after the decided part of the run: it freezes the
 // recorder, releases wedged connections and closes the server.
 func (rt *Runtime) teardown(res *Result) {
-	rt.frozen = true
-	wire.VerifYield = nil
-	wire.VerifLock = nil
+	rt.setFrozen()
+	setCurKernel(nil)
 	close(rt.never)
 	synctest.Wait()
 	done := make(chan struct{})
@@ -373,8 +407,7 @@ func RunInline(c *Case) *Result {
 		return res
 	}
 	rt.Srv = srv
-	wire.VerifYield = nil
-	wire.VerifLock = nil
+	setCurKernel(nil)
 	go func() {
 		rt.serveErr = srv.Serve(rt.L)
 		rt.serveDone = true
@@ -408,8 +441,7 @@ func RunScheduled(c *Case) *Result {
 		rt.closerEv = append(rt.closerEv, nil)
 	}
 	rt.K.Configure(c.Sched, c.Sub)
-	wire.VerifYield = rt.K.YieldHook
-	wire.VerifLock = rt.K.LockHook
+	setCurKernel(rt.K)
 	go func() {
 		rt.serveErr = srv.Serve(rt.L)
 		rt.serveDone = true
@@ -430,7 +462,7 @@ func RunScheduled(c *Case) *Result {
 			for n := 0; n < cl.Calls; n++ {
 				rt.closerEv[i] = append(rt.closerEv[i], Event{Seq: rt.K.Seq(), K: "close-call", S: fmt.Sprint(n)})
 				err := srv.Close()
-				if rt.frozen {
+				if rt.isFrozen() {
 					return
 				}
 				rt.closerEv[i] = append(rt.closerEv[i], Event{Seq: rt.K.Seq(), K: "close-ret", S: errClass(err)})
@@ -440,13 +472,16 @@ func RunScheduled(c *Case) *Result {
 		}()
 	}
 	res.Outcome = rt.K.Run(nil)
+	// a real (not suppressed) join: every task is durably blocked or gone, and
+	// this Wait is the happens-before edge under which the results are read
+	synctest.Wait()
 	res.Stuck = rt.K.ParkedPoints()
 	res.Schedule = rt.K.Recorded()
 	res.Trace = rt.K.trace
 	res.Decisions = rt.K.decisions
 	res.LockWaits = rt.K.lockWaits
 	res.HoldsForced = rt.K.holdsForced
-	rt.frozen = true
+	rt.setFrozen()
 	rt.K.KillAll()
 	res.CloserEvents = rt.closerEv
 	rt.teardown(res)
